@@ -1,6 +1,10 @@
 import LitexProofs.Bridge.Axl2Wb
 import LitexProofs.Bridge.Wb2Axl
 import LitexProofs.Bridge.Simple
+import LitexProofs.Bridge.Down
+import LitexProofs.Bridge.Up
+import LitexProofs.Bridge.Ahb2Wb
+import LitexProofs.Bridge.Axi2Axl
 /-
   C09 — Bus bridges and AXI-Lite converters preserve memory semantics and protocol rules.
 
@@ -217,4 +221,155 @@ theorem axl2csr_refines_regs (regs0 : Axl2Csr.Regs) (ins : List AxlM) :
   · simp [S, Axl2Csr.sys, Axl2Csr.Inv, Simple.init, AxlGhost.init]
 
 end SimpleThms
+
+/-! ## AXI-Lite width converters -/
+section ConvThms
+
+/-- **Down-converter, write path (any ratio ≥ 1).**  In front of a narrow AXI-Lite byte memory that accepts AW and
+    W in any order and at any time, executes and answers after any delay: for every protocol-following master,
+    one B per accepted AW+W and never a second acceptance while one is pending, the B is OKAY and repeated until
+    taken, and when it is taken the memory behind the converter has received exactly the sub-word writes of the
+    wide write, in ascending order, all-zero-strobe sub-words skipped (`DownW.wideWr`: sub-word `k` goes to
+    narrow word `(addr aligned to the wide word + k·nbTo) / nbTo` with strobe/data bits `k` of the wide ones);
+    between writes the memory equals the reference memory. -/
+theorem axldown_write_refines_mem (c : DownCfg) (hr : 0 < c.ratio) (mem0 : Mem) (ins : List (AxlM × AxlOracle)) :
+    let S := DownW.sys c mem0
+    S.LegalFrom (fun s i => s.g.reqHeld i.1) S.init ins →
+    S.AlwaysFrom (fun s i =>
+        s.g.rspHeld (S.out s i).1 ∧
+        ((S.out s i).1.bvalid = true → s.g.pendAW.isSome ∧ s.g.pendW.isSome ∧ (S.out s i).1.bresp = respOkay) ∧
+        (i.1.awvalid = true → (S.out s i).1.awready = true → s.g.pendAW = none) ∧
+        (i.1.wvalid = true → (S.out s i).1.wready = true → s.g.pendW = none) ∧
+        (s.br.st = .idle → s.p.mem = s.g.ref)) S.init ins := by
+  intro S
+  refine Machine.always_of_invariant S _ _ (DownW.Inv c) (fun s i hinv hok => ?_) ins S.init ?_
+  · exact DownW.step c hr s i hinv hok
+  · simp [S, DownW.sys, DownW.Inv, DownW.init, AxlMem.init, AxlGhost.init]
+
+/-- Non-vacuity / the fixed finding C09-axil-downconv-write-hang in the model: 64→32 (ratio 2, 4-byte narrow
+    words), wide write with strobe 0xF0 to a partner that is ready all the time: the write completes (B presented
+    after 6 cycles) and only the upper narrow word is written. -/
+example :
+    let c : DownCfg := { ratio := 2, nbTo := 4, abits := 32 }
+    let S := DownW.sys c (fun _ => 0)
+    let w : AxlM := { AxlM.idle with awvalid := true, awaddr := 0, wvalid := true, wdata := 0x1122334455667788, wstrb := 0xF0 }
+    let o : AxlOracle := ⟨true, true, true, true, true, true, true⟩
+    let s := S.runFrom S.init [(w, o), (w, o), (w, o), (w, o), (w, o), (w, o)]
+    s.br.st = .respMaster ∧ s.p.mem 4 = 0x44 ∧ s.p.mem 0 = 0 := by
+  refine ⟨?_, ?_, ?_⟩ <;> simp [Machine.runFrom, DownW.sys, DownW.sysOut, DownW.init, DownW.next, DownW.nextFsm,
+    DownW.reset, DownW.toSlave, DownW.toMaster, DownW.skip, DownW.lastWord, DownW.subStrb, DownW.subData,
+    DownCfg.subAddr, DownCfg.nbFrom, AxlGhost.next, AxlGhost.init, AxlM.idle, AxlS.idle, AxlMem.init, AxlMem.out,
+    AxlMem.next, Mem.writeWord, Mem.writeMasked, selBits, wordBytes, respOkay]
+
+/-- FULL STATEMENT (false on the code, finding C09-axil-upconv-lane-follows-address-lines):
+      write data travels in, and read data is taken from, the byte-lane group of the address of the transaction
+      it belongs to — for every protocol-following master.
+    The converter selects the lane group from the address lines while `aw.valid` / `ar.valid` and from a latch
+    otherwise.  Proved for masters that issue one transaction per direction at a time and present W with or after
+    its AW (`Up.serial`), for ANY partner behaviour and any ratio: -/
+theorem axlup_lane_partial (c : UpCfg) (ins : List (AxlM × AxlS)) :
+    let S := Up.osys c
+    S.LegalFrom (fun s i => Up.serial s.g i.1) S.init ins →
+    S.AlwaysFrom (fun s i =>
+      (i.1.wvalid = true → ∀ a, Up.curWrite s.g i.1 = some a →
+         (S.out s i).2.wstrb = i.1.wstrb * 2 ^ (c.laneOf a * c.nbFrom) ∧
+         (S.out s i).2.wdata = i.1.wdata * 256 ^ (c.laneOf a * c.nbFrom)) ∧
+      (∀ a, s.g.pendAR = some a →
+         (S.out s i).1.rdata = i.2.rdata / 256 ^ (c.laneOf a * c.nbFrom) % 256 ^ c.nbFrom)) S.init ins := by
+  intro S
+  refine Machine.always_of_invariant S _ _ (Up.OInv c) (fun s i hinv hok => ?_) ins S.init ?_
+  · exact Up.ostep c s i hinv hok
+  · simp [S, Up.osys, Up.OInv, Up.init, AxlGhost.init]
+
+/-- Everything else of the up-converter is wiring, for every input: handshakes and responses pass through
+    unchanged and the addresses are the master's, aligned to the wide word. -/
+theorem axlup_passthrough (c : UpCfg) (s : UpState) (m : AxlM) (r : AxlS) :
+    let q := Up.toSlave c s m
+    let o := Up.toMaster c s m r
+    q.awvalid = m.awvalid ∧ q.wvalid = m.wvalid ∧ q.arvalid = m.arvalid ∧ q.bready = m.bready ∧ q.rready = m.rready ∧
+    q.awaddr = m.awaddr / c.nbTo * c.nbTo ∧ q.araddr = m.araddr / c.nbTo * c.nbTo ∧
+    o.awready = r.awready ∧ o.wready = r.wready ∧ o.arready = r.arready ∧ o.bvalid = r.bvalid ∧ o.bresp = r.bresp ∧
+    o.rvalid = r.rvalid ∧ o.rresp = r.rresp := by
+  simp [Up.toSlave, Up.toMaster]
+
+/-- Negative witness (32→64): AR 0x0 is accepted, then the master presents AR 0x4 while the R of the first read
+    is outstanding; the wide word 0x11111111_00000000 comes back and the master is handed lane 1. -/
+example :
+    let c : UpCfg := { ratio := 2, nbFrom := 4 }
+    let S := Up.machine c
+    let s := S.runFrom S.init [({ AxlM.idle with arvalid := true, araddr := 0 }, { AxlS.idle with arready := true })]
+    (S.out s ({ AxlM.idle with arvalid := true, araddr := 4, rready := true },
+              { AxlS.idle with rvalid := true, rdata := 0x1111111100000000 })).1.rdata = 0x11111111 := by
+  decide
+
+end ConvThms
+
+/-! ## AXI2AXILite -/
+section Axi2AxlThms
+
+/-- FULL STATEMENT (false on the code, findings C09-axi2axil-rlast-pipelined-slave, -resp-swallowed,
+    -w-accepted-before-aw): every burst is fully answered, `last` on the final beat only, error responses
+    propagated, B after the AXI-Lite write responses — for every legal AXI-Lite partner.
+    Proved part (read bursts): for an AXI master that issues no writes and an AXI-Lite partner that answers reads
+    one at a time (`Axi2Axl.singleOutstanding`: R only for an accepted AR, next AR accepted only after the previous
+    R was delivered), for every burst type/length/size, every master and partner timing: each R beat handed to the
+    AXI master carries the burst's id and is marked `last` exactly if it is beat number `len + 1`. -/
+theorem axi2axl_read_burst_partial (aw : Nat) (ins : List (AxiM × AxlS)) :
+    let S := Axi2Axl.rsys aw
+    S.LegalFrom (fun s i => Axi2Axl.singleOutstanding s i ∧ i.1.awvalid = false) S.init ins →
+    S.AlwaysFrom (fun s i =>
+      s.br.st = .read → (S.out s i).1.rvalid = true →
+        ((S.out s i).1.rlast = true ↔ s.rCnt = s.br.bufReq.len) ∧ s.rCnt ≤ s.br.bufReq.len ∧
+        (S.out s i).1.rid = s.br.bufReq.id) S.init ins := by
+  intro S
+  refine Machine.always_of_invariant S _ _ Axi2Axl.RInv (fun s i hinv hok => ?_) ins S.init ?_
+  · exact Axi2Axl.rstep aw s i hinv hok.1 hok.2
+  · simp [S, Axi2Axl.rsys, Axi2Axl.RInv, Axi2Axl.init, Litex.Axi.b2bInit]
+
+/-- The beat addresses the bridge issues are those of `AXIBurst2Beat` (whose address theorems are C10's), the
+    responses are constants and the AXI-Lite B channel is always ready — every state, every input. -/
+theorem axi2axl_as_built (aw : Nat) (s : X2LState) (m : AxiM) (r : AxlS) :
+    let q := Axi2Axl.toSlave aw s m
+    let o := Axi2Axl.toMaster aw s m r
+    q.bready = true ∧ o.rresp = respOkay ∧ o.bresp = respOkay ∧
+    (s.st = .read → q.araddr = Litex.Axi.beatAddr aw s.bufReq s.b2b ∧ o.rdata = r.rdata ∧ o.rlast = s.cmdDone) ∧
+    (s.st = .write → q.awaddr = Litex.Axi.beatAddr aw s.bufReq s.b2b ∧ q.wdata = m.wdata ∧ q.wstrb = m.wstrb) := by
+  cases h : s.st <;> simp [Axi2Axl.toSlave, Axi2Axl.toMaster, Axi2Axl.beat, Litex.Axi.b2bOut, h, AxlM.idle, AxiS.idle,
+    respOkay]
+
+end Axi2AxlThms
+
+/-! ## AHB2Wishbone -/
+section AhbThms
+variable (c : AhbCfg)
+
+/-- **Byte-lane decoding.**  The `Case` tables of `wishbone_sel_decoder` select exactly the `2^size` lanes starting
+    at the address offset rounded down to the transfer size, for every size the bridge accepts and every address
+    offset, on the 64-bit and on the 32-bit bus. -/
+theorem ahb2wb_sel_table :
+    (∀ size, size < 4 → ∀ a, a < 8 → ahbSel64 size a = Ahb2Wb.laneMask 3 size a) ∧
+    (∀ size, size < 3 → ∀ a, a < 4 → ahbSel32 size a = Ahb2Wb.laneMask 2 size a) :=
+  ⟨Ahb2Wb.sel64_table, Ahb2Wb.sel32_table⟩
+
+/-- **Memory semantics.**  AHB2Wishbone in front of a Wishbone byte memory of arbitrary latency, AHB master keeping
+    `hwdata` stable during the (extended) data phase: a completing read (`hreadyout` after its data phase)
+    returns the reference content of word `haddr >> shift`; a completed write has stored `hwdata` on the lanes
+    `ahbSel size haddr` of that word; outside transfers the memory equals the reference memory. -/
+theorem ahb2wb_refines_mem (mem0 : Mem) (ins : List (AhbM × WbOracle)) :
+    let S := Ahb2Wb.sys c mem0
+    S.LegalFrom (fun s i => Ahb2Wb.masterOk s.g i.1) S.init ins →
+    S.AlwaysFrom (fun s i => Ahb2Wb.memOk c s.g (S.out s i).1 ∧ (s.g.cur = none → s.mem = s.g.ref)) S.init ins := by
+  intro S
+  refine Machine.always_of_invariant S _ _ (Ahb2Wb.Inv c) (fun s i hinv hok => ?_) ins S.init ?_
+  · exact Ahb2Wb.step c s i hinv hok
+  · simp [S, Ahb2Wb.sys, Ahb2Wb.Inv, Ahb2Wb.init]
+
+/-- `hresp` mirrors `wishbone.err` during the data phase only (every state, every input); the cycle that completes
+    the transfer (`hreadyout = 1`) always shows OKAY — see the probe C09-ahb2wb-error-response-malformed. -/
+theorem ahb2wb_resp (s : AhbState) (m : AhbM) (r : WbS) :
+    (Ahb2Wb.toMaster s m r).resp = (decide (s.st = .data) && r.err) ∧
+    ((Ahb2Wb.toMaster s m r).readyout = true → (Ahb2Wb.toMaster s m r).resp = false) := by
+  cases h : s.st <;> simp [Ahb2Wb.toMaster, h]
+
+end AhbThms
 end Litex.C09
